@@ -163,7 +163,9 @@ pub fn run_pgp(case: &Value, _seed: u64) -> Outcome {
     o.key = case.to_string();
     o.nontrivial = true;
     let lines: Vec<&str> = case["l"].as_array().map(|a| a.iter().filter_map(|x| x.as_str()).collect()).unwrap_or_default();
-    let t: Vec<String> = lines.iter().enumerate().map(|(n, c)| match *c { "BM" => "-----BEGIN PGP SIGNED MESSAGE-----".to_string(), "BS" => "-----BEGIN PGP SIGNATURE-----".into(), "ES" => "-----END PGP SIGNATURE-----".into(), "E" => String::new(), "F" => "Package: foo".into(), _ => format!("line é {}", n) }).collect();
+    let t: Vec<String> = lines.iter().enumerate().map(|(n, c)| match *c { "BM" => "-----BEGIN PGP SIGNED MESSAGE-----".to_string(), "BS" => "-----BEGIN PGP SIGNATURE-----".into(), "ES" => "-----END PGP SIGNATURE-----".into(), "E" => String::new(), "F" => "Package: foo".into(),
+        // text lines: multi-byte characters at every byte offset 0..8 (a fixed-offset slice must not split one)
+        _ => format!("{}é日😀: line é {}", "Hash".chars().cycle().take(n % 9).collect::<String>(), n) }).collect();
     let mut text = t.join("\n");
     if case["lf"].as_bool() == Some(true) && !t.is_empty() { text.push('\n'); }
     feed_all(&mut o, &text, &vec![]);
